@@ -40,6 +40,17 @@ func isoImpl(line string) string {
 			}
 		}
 		return joinSet(seen)
+	case "after":
+		// `iso after <sql level> <ase level>`: what translating the sql level gives after the ASE level was
+		// translated back and printed in the same (fresh) process — the same as without that history
+		if len(f) < 4 {
+			return "bad-op"
+		}
+		out, err := exec.Command(os.Args[0], "-isochild", "after:"+f[3]+":"+f[2]).Output()
+		if err != nil {
+			return "crash"
+		}
+		return strings.TrimSpace(string(out))
 	case "togo":
 		seen := map[string]bool{}
 		for i := 0; i < reps; i++ {
@@ -70,6 +81,21 @@ func isoImpl(line string) string {
 }
 
 func isoChild(arg string) {
+	if strings.HasPrefix(arg, "after:") {
+		// a history in a fresh process: translate an ASE level back and print it, THEN translate a sql level
+		f := strings.Split(arg, ":")
+		a, _ := strconv.Atoi(f[1])
+		q, _ := strconv.Atoi(f[2])
+		_ = dblib.ASEIsolationLevel(a).ToGo()
+		_ = dblib.ASEIsolationLevel(a).String()
+		lvl, err := dblib.ASEIsolationLevelFromGo(sql.IsolationLevel(q))
+		if err != nil {
+			fmt.Println("err")
+		} else {
+			fmt.Printf("ok %d\n", int(lvl))
+		}
+		return
+	}
 	n, _ := strconv.Atoi(arg)
 	seen := map[string]bool{}
 	for i := 0; i < 200; i++ {
@@ -119,6 +145,13 @@ func init() {
 			for i := 0; i < 40; i++ {
 				emit(Case{Line: fmt.Sprintf("iso fromgo %d", rng.Int63n(1<<40)-(1<<39)), Kind: "fromgo-random"})
 			}
+			// histories: a level is translated back and printed first (the invalid level a failed call returns,
+			// unknown values, the supported ones), then every sql level is translated: same answers as without
+			for _, a := range []int{-1, 0, 5, 2, 64} {
+				for q := -1; q <= 8; q++ {
+					emit(Case{Line: fmt.Sprintf("iso after %d %d", q, a), Kind: "fromgo-after-togo"})
+				}
+			}
 		},
 		Impl:    isoImpl,
 		NoModel: func(line string) bool { return strings.HasPrefix(line, "iso str") },
@@ -145,7 +178,7 @@ func init() {
 				return "every level value gets an answer (a translation, a default or an error), never a crash"
 			}
 			switch f[1] {
-			case "fromgo":
+			case "fromgo", "after":
 				want := "err"
 				switch sql.IsolationLevel(n) {
 				case sql.LevelDefault, sql.LevelReadCommitted:
@@ -156,6 +189,9 @@ func init() {
 					want = fmt.Sprintf("ok %d", int(dblib.ASELevelRepeatableRead))
 				case sql.LevelSerializable:
 					want = fmt.Sprintf("ok %d", int(dblib.ASELevelSerializableRead))
+				}
+				if out != want && f[1] == "after" {
+					return "the four supported levels translate, every other level is an error — also after a level was translated back and printed (the same answer for the same level)"
 				}
 				if out != want {
 					return "the four supported levels (default = read committed) translate, every other level is an error"
